@@ -2,7 +2,7 @@
    Theorems only.  Wall-clock time and the interpreter recursion limit are
    outside the model (checked by the hunter). *)
 From MF Require Import Lib.Base Model.GrammarTypes Model.Lexer Model.LR Model.Transformer Model.Api
-  Proofs.C11 Proofs.GrammarFacts Gen.Grammar.
+  Proofs.C11 Proofs.GrammarFacts Proofs.LRFacts Gen.Grammar.
 
 (* [U] mappyfile's token-retyping hook is total: its only partial operation,
    value_stack[-1], is guarded (before the fix recorded in known_findings.json
@@ -19,18 +19,27 @@ Theorem C11_transformer_failures_are_visit_errors :
 Proof. exact (fun ip ic t => ov_transform ip ic t). Qed.
 Print Assumptions C11_transformer_failures_are_visit_errors.
 
-(* [U] PARTIAL.  Full statement wanted: for every text, loads returns a value or
-   fails with VisitError / UnexpectedCharacters / UnexpectedToken carrying the
-   offending position.  Proved: those three, or one of the LR driver's internal
-   failure modes (missing goto / stack underflow / exhausted fuel), which a
-   well-formed LALR table never triggers; excluding them needs an LR table
-   validator and is left to the correspondence runs (no explored input reaches
-   them). *)
+(* [F] the LALR table Lark built for the current grammar passes the table
+   validator of Proofs/LRFacts.v (every reduce action is preceded, on every path
+   of the automaton, by states spelling its right-hand side; the goto after
+   popping exists; the end marker is never shifted; inlined children are always
+   tree nodes), and every token type the scanners can produce is a terminal *)
+Theorem C11_lalr_table_validated : LRFacts.table_ok the_grammar = true /\ LRFacts.types_ok the_grammar the_hook = true.
+Proof. exact (conj the_grammar_table_ok the_grammar_types_ok). Qed.
+Print Assumptions C11_lalr_table_validated.
+
+(* [U] for EVERY text, loads returns a value or fails with a lark VisitError, or
+   UnexpectedCharacters / UnexpectedToken carrying the offending position: the
+   LR driver's internal failure modes (missing rule or goto, stack underflow,
+   assertion, attribute error) are excluded by the stack invariant the validated
+   table maintains.  PARTIAL only in that exhaustion of the model's reduce fuel
+   (a bound on consecutive reductions, with no counterpart in Python) is not
+   excluded by a theorem; no explored input reaches it. *)
 Theorem C11_loads_failure_classes_partial :
   forall ip ic text e,
     loads ip ic text = Err e ->
-    e = LarkVisitError \/ lark_syntax_error e \/ driver_internal e.
-Proof. exact loads_errors. Qed.
+    e = LarkVisitError \/ lark_syntax_error e \/ e = OutOfFuel.
+Proof. exact loads_errors_strong. Qed.
 Print Assumptions C11_loads_failure_classes_partial.
 
 (* [F] every block type the generated grammar can open (its composite_type
